@@ -10,7 +10,8 @@ CHECKS = {
     "C04": ("exhaustive enumeration of a finite domain (all permutations x parities x placeholder patterns) against a "
             "coordinate-derived symmetry oracle",
             "Complete enumeration: for each of the six descriptor classes every permutation of every position, every "
-            "parity pair and every placeholder pattern is executed on the real classes and compared with proper/improper "
+            "parity pair and every placeholder pattern (one to three lone pairs), over four identifier tuples (incl. the falsy id 0 and "
+            "identifiers whose Python hashes collide), is executed on the real classes and compared with proper/improper "
             "symmetry groups computed from idealised coordinates. The domain is finite modulo renaming and is covered "
             "completely, so within the stated idealisation this decides the property.",
             "Trusted: the idealised figures of DESIGN.md 4.1 and numpy's linear algebra; atoms inside a descriptor are "
@@ -92,8 +93,8 @@ CHECKS["C05"] = (
 
 CHECKS["C06"] = (
     ENUM + " (reference mirror image + brute-force search for an isomorphism onto it)",
-    "Every stereo spec of the universes (all descriptor classes, all stereoisomers, placeholders, unspecified parity, axis "
-    "chirality, stereo changes on atoms and bonds, with attributes): enantiomer() must equal the reference mirror image, leave "
+    "Every stereo spec of the universes (all descriptor classes, all stereoisomers, placeholders in atom, axis and planar-bond "
+    "descriptors, unspecified parity, axis chirality, stereo changes on atoms and bonds, with attributes): enantiomer() must equal the reference mirror image, leave "
     "the original untouched, be an involution, and g == g.enantiomer() iff the oracle finds an isomorphism onto the mirror.",
     "Trusted: refgraph.mirror / refstereo / refiso.", "DESIGN.md 5/C06")
 CHECKS["C08"] = (
@@ -112,13 +113,14 @@ CHECKS["C10"] = (
 CHECKS["C11"] = (
     ENUM + " (specs x all injective total/partial mappings x copy/in-place; differential follow-ups against a fresh build)",
     "Every spec with <=5 atoms x all total permutations, pool injections and all partial mappings x copy/in-place: result equals "
-    "the reference renaming, copy and in-place agree, the inverse mapping restores the original, and every follow-up edit / "
+    "the reference renaming (also onto hash-colliding identifiers, for a 7-coordinate centre and 133-atom graphs), copy and in-place agree, the inverse mapping restores the original, and every follow-up edit / "
     "==/hash/matrix/components behaves as on a freshly built graph with the same labelled content.",
     "Trusted: refgraph.relabel; mappings with injective induced total map only.", "DESIGN.md 5/C11")
 CHECKS["C15"] = (
     ENUM + " (all specs x three identifier pools; snapshot identity after the round trip)",
     "Every spec of all four universes (every descriptor class, parity incl. None, placeholders, formed/broken/fleeting bonds, all 7 "
-    "kind combinations of atom and bond stereo changes, empty graph) in three identifier pools (0..n-1, negative, >=2^31): "
+    "kind combinations of atom and bond stereo changes, empty graph) in three identifier pools (0..n-1, negative, >=2^31), once "
+    "more with attributes outside the format on every atom and bond, and with hash-colliding identifiers: "
     "deserialize(serialize(g)) has the same class, an identical snapshot, compares equal and hashes equal.",
     "Trusted: snapshot; attributes other than element/role are not part of the format.", "DESIGN.md 5/C15")
 CHECKS["C17"] = (
@@ -151,7 +153,7 @@ CHECKS["C20"] = (
     ENUM + " (value grid x element cycle x comment lines; all 118x118 element pairs at both sides of the cut-off)",
     "XYZ write/read round trip over a coordinate value grid (signs, magnitudes up to 1e6, half-ulp-of-print cases), all 118 "
     "elements, 1..1001 (thorough 10001) atoms and 11 comment lines; distance connectivity for all 13924 element pairs just below/above the cut-off "
-    "through the matrix API, the scalar API and MolGraph.from_geometry; invariance under rigid motion and atom permutation.",
+    "and at distance 0 and 1e-9 x cut-off (coincident atoms), through the matrix API, the scalar API and MolGraph.from_geometry; invariance under rigid motion and atom permutation.",
     "Trusted: the covalent radii table (read as data).", "DESIGN.md 5/C20")
 
 CHECKS["C12"] = (
